@@ -333,7 +333,7 @@ impl C13 {
             let by_balance = delta_of(s.pre.bal(&recv, token_out_denom), s.post.bal(&recv, token_out_denom));
             let by_event = evs.iter().find_map(|e| if let PoolEv::RouteSummary { return_amount, .. } = e { Some(*return_amount) } else { None });
             // receivers the harness does not track (the fee collector gets protocol fees too): fall back to the event
-            let tracked = recv != w.fc && recv != w.pm;
+            let tracked = recv != w.fc && recv != w.fc2 && recv != w.pm;
             let delivered = if tracked { by_balance } else { by_event };
             if let (Some(min), Some(d)) = (minimum_receive, delivered) {
                 if d >= min.u128() {
